@@ -10,6 +10,7 @@ package tr
 
 import (
 	"bufio"
+	"bytes"
 	"encoding/json"
 	"fmt"
 	"os"
@@ -58,11 +59,37 @@ func (r *Run) emit(m map[string]any) {
 	if err != nil {
 		panic(err)
 	}
+	if bytes.Contains(b, []byte("null")) {
+		// TLC's JSON module has no null: a nil map / slice / pointer (which only a broken tree produces where the
+		// specification expects a value) is written as the string "<nil>", which no specification accepts
+		var v any
+		if json.Unmarshal(b, &v) == nil {
+			if b2, err := json.Marshal(noNull(v)); err == nil {
+				b = b2
+			}
+		}
+	}
 	r.mu.Lock()
 	if !r.quiet {
 		r.lines = append(r.lines, b)
 	}
 	r.mu.Unlock()
+}
+
+func noNull(v any) any {
+	switch x := v.(type) {
+	case nil:
+		return "<nil>"
+	case map[string]any:
+		for k, e := range x {
+			x[k] = noNull(e)
+		}
+	case []any:
+		for i, e := range x {
+			x[i] = noNull(e)
+		}
+	}
+	return v
 }
 
 // Quiet suspends (true) / resumes (false) recording: events of a warm-up that is not part of the case are dropped.
